@@ -74,7 +74,24 @@ pub struct TrackSpec {
     pub interval_bits: u32,
 }
 
+thread_local! { static AUX: std::cell::Cell<u8> = const { std::cell::Cell::new(0) }; }
+
+/// Variant of the fields of a tracking report that no property gives a meaning to (stratum, source
+/// address, last/RMS offset, frequency, residual frequency, skew). 0 is the plain report; the others
+/// exist because "a field that should not matter" is exactly where a dependence can hide.
+pub fn set_aux_variant(v: u8) {
+    AUX.with(|a| a.set(v));
+}
+pub const AUX_VARIANTS: [u8; 4] = [0, 1, 2, 3];
+
 pub fn tracking_wire(t: &TrackSpec, sequence: u32) -> Vec<u8> {
+    let aux = AUX.with(|a| a.get());
+    let (stratum, ip4, misc): (u16, Option<[u8; 4]>, [u32; 5]) = match aux {
+        0 => (1, None, [0; 5]),
+        1 => (2, Some([169, 254, 169, 123]), [encode_float(-0.0003), encode_float(0.0004), encode_float(-12.5), encode_float(0.01), encode_float(0.05)]),
+        2 => (0, None, [encode_float(1.0), encode_float(1.0), encode_float(100.0), encode_float(-1.0), encode_float(1000.0)]),
+        _ => (15, Some([10, 0, 0, 1]), [0x7E00_0001, 0x0000_0001, 0, 0, 0]),
+    };
     let mut b: Vec<u8> = Vec::with_capacity(104);
     b.extend_from_slice(&[6, 2, 0, 0]);
     b.extend_from_slice(&33u16.to_be_bytes()); // command being replied to (REQ_TRACKING)
@@ -85,10 +102,19 @@ pub fn tracking_wire(t: &TrackSpec, sequence: u32) -> Vec<u8> {
     b.extend_from_slice(&[0; 8]);
     debug_assert_eq!(b.len(), 28);
     b.extend_from_slice(&t.ref_id.to_be_bytes());
-    b.extend_from_slice(&[0; 16]);
-    b.extend_from_slice(&0u16.to_be_bytes()); // IPADDR_UNSPEC
+    match ip4 {
+        None => {
+            b.extend_from_slice(&[0; 16]);
+            b.extend_from_slice(&0u16.to_be_bytes()); // IPADDR_UNSPEC
+        }
+        Some(a) => {
+            b.extend_from_slice(&a);
+            b.extend_from_slice(&[0; 12]);
+            b.extend_from_slice(&1u16.to_be_bytes()); // IPADDR_INET4
+        }
+    }
     b.extend_from_slice(&0u16.to_be_bytes());
-    b.extend_from_slice(&1u16.to_be_bytes()); // stratum
+    b.extend_from_slice(&stratum.to_be_bytes());
     b.extend_from_slice(&t.leap.to_be_bytes());
     let secs = t.ref_time_ns.div_euclid(1_000_000_000) as i64;
     let nsecs = t.ref_time_ns.rem_euclid(1_000_000_000) as u32;
@@ -96,11 +122,11 @@ pub fn tracking_wire(t: &TrackSpec, sequence: u32) -> Vec<u8> {
     b.extend_from_slice(&((secs & 0xffff_ffff) as u32).to_be_bytes());
     b.extend_from_slice(&nsecs.to_be_bytes());
     b.extend_from_slice(&t.offset_bits.to_be_bytes()); // current_correction
-    b.extend_from_slice(&t.offset_bits.to_be_bytes()); // last_offset
-    b.extend_from_slice(&0u32.to_be_bytes()); // rms_offset
-    b.extend_from_slice(&0u32.to_be_bytes()); // freq_ppm
-    b.extend_from_slice(&0u32.to_be_bytes()); // resid_freq_ppm
-    b.extend_from_slice(&0u32.to_be_bytes()); // skew_ppm
+    b.extend_from_slice(&(if aux == 0 { t.offset_bits } else { misc[0] }).to_be_bytes()); // last_offset
+    b.extend_from_slice(&misc[1].to_be_bytes()); // rms_offset
+    b.extend_from_slice(&misc[2].to_be_bytes()); // freq_ppm
+    b.extend_from_slice(&misc[3].to_be_bytes()); // resid_freq_ppm
+    b.extend_from_slice(&misc[4].to_be_bytes()); // skew_ppm
     b.extend_from_slice(&t.delay_bits.to_be_bytes());
     b.extend_from_slice(&t.disp_bits.to_be_bytes());
     b.extend_from_slice(&t.interval_bits.to_be_bytes());
